@@ -497,7 +497,7 @@ def run(ctx):
     if ctx.shard == 0:
         for c in DIRECTED:
             ctx.run_case(judge, c)
-    n = ctx.scale(12000, 400000)
+    n = ctx.scale(36000, 600000)
     for i in range(n):
         c = gen_case(ctx)
         ctx.run_case(judge, c)
